@@ -162,6 +162,12 @@ def _pointer_escapes(ctx, p, funcs):
                 inner = n
             if inner is None:
                 continue
+            # the begin/end pointers the compiler makes for `for (x : array)`: end is begin plus the array's own extent, the body
+            # cannot name them, the walk stays inside the array
+            if any(a['k'] == 'VarDecl' and re.match(r'__(begin|end)\d+$', a.get('name') or '') for a in f.ancestors(n)) and \
+                    any(a['k'] == 'CXXForRangeStmt' for a in f.ancestors(n)) and \
+                    all((x.get('ref') or {}).get('n', '').startswith('__range') for x in walk(inner) if (x.get('ref') or {}).get('k') == 'Local'):
+                continue
             # a pointer that only serves to compute an index (`std::max_element(a + i, a + n) - a`): the difference is an
             # integer, no pointer survives the expression; the subscript made with that index is an ordinary site
             if any(a['k'] == 'BinaryOperator' and a.get('op') == '-' and (a.get('t') or '') in ('long', 'std::ptrdiff_t', 'ptrdiff_t', 'int')
